@@ -25,7 +25,7 @@ ASSUMPTIONS = [
     "virtual clock: asyncio timers fire in deadline order exactly as on a real clock; wall time is only a watchdog",
     "one caller at a time (concurrency is C06)",
 ]
-MUST = ["requests_around_transaction_id_wrap", "stale_fragment_while_idle", "auto_detected_object_silent", "public_entry_points", "truncated_answer", "stale_datagram_while_idle", "retry_branch", "max_retries_branch", "fragment_rearm", "immediate_retry_invalid", "tcp_connect_error",
+MUST = ["stale_answer_while_next_request_in_flight", "requests_around_transaction_id_wrap", "stale_fragment_while_idle", "auto_detected_object_silent", "public_entry_points", "truncated_answer", "stale_datagram_while_idle", "retry_branch", "max_retries_branch", "fragment_rearm", "immediate_retry_invalid", "tcp_connect_error",
         "connect_hang_bounded", "silent_exact", "success", "rejected"]
 EXHAUSTIVE = {"quick": True, "thorough": True}
 
@@ -85,6 +85,16 @@ def scenario_idle_fragment(transport, framing, ka, T, R, D, gap, hops=0):
             "by_reg": {100: [["nowfrag", D, hops]], 101: []}, "after": "drop", "fullscript": [["nowfrag", D, hops], f"gap={gap}"],
             "then_silent": True, "send_faults": {}, "connect": [],
             "tasks": [{"start": 0.0, "steps": [["read", 100, 2], ["sleep", D + gap], ["read", 101, 2]]}]}
+
+
+def scenario_stale_answer_in_flight(transport, framing, ka, T, R, gap, x, count2):
+    """request 1 is answered at once and an exact duplicate of that answer arrives `x` after request 2 (issued `gap` later, `count2` registers
+    from the next address) was transmitted; request 2's own answers are all lost.  Whether the duplicate is taken as the answer (same shape)
+    or refused, request 2 must still end within its bounds."""
+    return {"transport": transport, "framing": framing, "keep_alive": ka, "T": T, "R": R,
+            "by_reg": {100: [["nowdup", gap + x]], 101: []}, "after": "drop", "fullscript": [["nowdup", gap + x], f"gap={gap}", f"count2={count2}"],
+            "then_silent": True, "send_faults": {}, "connect": [],
+            "tasks": [{"start": 0.0, "steps": [["read", 100, 2], ["sleep", gap], ["read", 101, count2]]}]}
 
 
 def _strip_tx(sc, data: bytes):
@@ -279,6 +289,11 @@ def run_shard(spec):
                 for hops in (0, 3):
                     run_case(scenario_idle_fragment(spec["transport"], spec["framing"], spec["ka"], spec["T"], R, D * spec["T"], gap * spec["T"], hops), part)
                     part.count("stale_fragment_while_idle")
+        for gap in (0.2, 1.0):
+            for x in (0.0, 0.3, 0.9, 1.5, 2.2):     # the duplicate lands during the 1st / 2nd / 3rd transmission of request 2
+                for count2 in (2, 3):
+                    run_case(scenario_stale_answer_in_flight(spec["transport"], spec["framing"], spec["ka"], spec["T"], R, gap * spec["T"], x * spec["T"], count2), part)
+                    part.count("stale_answer_while_next_request_in_flight")
     elif mode == "truncation":
         full = {"rtu": 9, "tcp": 13, "aa55": 9 + 40}[spec["framing"]]      # length of the complete answer to the request used here
         for R in spec["Rs"]:
